@@ -145,7 +145,21 @@ func c18_genC18(repo string) string {
 	// vm.loadedCode that deletes the entry of the loop variable under `if <key>.Root() == <main>`, placed
 	// before the call of vm.loadCode that wraps the main code afresh
 	dropsFns := false
+	// the statements of an immediately called function literal `func() { … }()` at the top level (the
+	// form that lets the mutex be released by a deferred Unlock) count as standing in its place
+	var reloadStmts []ast.Stmt
 	for _, st := range reload.Body.List {
+		if es, ok := st.(*ast.ExprStmt); ok {
+			if call, ok := es.X.(*ast.CallExpr); ok && len(call.Args) == 0 {
+				if fl, ok := call.Fun.(*ast.FuncLit); ok {
+					reloadStmts = append(reloadStmts, fl.Body.List...)
+					continue
+				}
+			}
+		}
+		reloadStmts = append(reloadStmts, st)
+	}
+	for _, st := range reloadStmts {
 		if as, ok := st.(*ast.AssignStmt); ok && len(as.Rhs) == 1 && strings.HasPrefix(c18Expr(fset, as.Rhs[0]), "vm.loadCode(") {
 			break
 		}
